@@ -10,8 +10,13 @@
       step succeeded, otherwise it is Failed - with the failing hook's own message when it
       gave one - and no later step is run."
 
-   Only the data types (version, rule, obj, outcome, answer, invocation) are shared with
-   the model; none of its functions is used here. *)
+   Only the data types (version, rule, obj, outcome, review, invocation) are shared with
+   the model; none of its functions is used here.
+
+   A hook's outcome OResp msg objs carries the failedMessage the hook wrote as a byte string
+   ([] = it gave none); the answer is the ConversionReview's result: RSuccess objs, or
+   RFailure message with the bytes of result.message.  "The failing hook's own message" is
+   read literally: the same bytes, nothing added, removed or rewritten. *)
 From Verif Require Import Common C15_Model.
 
 (* ---------------------------------------------------------------- part 1: the chain *)
@@ -89,7 +94,7 @@ Fixpoint all_P_search (rules : list rule) (qs : list rule) (answers : list (opti
 (* ---------------------------------------------------------------- part 2: applying it *)
 
 Definition ok_out (o : outcome) : option (list obj) :=
-  match o with OResp None objs => Some objs | _ => None end.
+  match o with OResp [] objs => Some objs | _ => None end.
 Definition is_ok (o : outcome) : bool := match ok_out o with Some _ => true | None => false end.
 
 Definition obj_eqb (a b : obj) : bool := N.eqb (fst a) (fst b) && version_eqb (snd a) (snd b).
@@ -121,35 +126,27 @@ Fixpoint feeds (cur : list obj) (outs : list outcome) (trace : list invocation) 
 Definition last_out (outs : list outcome) (trace : list invocation) : outcome :=
   nth (length trace - 1) outs OExitFail.
 
-Definition fmsg_eqb (a b : fmsg) : bool :=
-  match a, b with
-  | MHook x, MHook y => N.eqb x y
-  | MHookFailed, MHookFailed | MPropError, MPropError | MNotSuccessful, MNotSuccessful | MOther, MOther => true
-  | MCount g w, MCount g' w' => N.eqb g g' && N.eqb w w'
-  | _, _ => false
-  end.
-
 (* the answer, given what the invoked steps did *)
 Definition verdict_ok (desired : version) (chain : list rule) (outs : list outcome) (req : list obj)
-           (trace : list invocation) (ans : answer) : bool :=
+           (trace : list invocation) (ans : review) : bool :=
   match trace with
   | [] =>
     (* nothing ran: no chain or nothing to convert; never a Success *)
-    match ans with Failed _ => match chain, req with [], _ | _, [] => true | _, _ => false end | Success _ => false end
+    match ans with RFailure _ => match chain, req with [], _ | _, [] => true | _, _ => false end | RSuccess _ => false end
   | _ =>
     match last_out outs trace with
-    | OResp None objs =>                                 (* every invoked step succeeded *)
+    | OResp [] objs =>                                   (* every invoked step succeeded *)
       match ans with
-      | Success res =>
+      | RSuccess res =>
         objs_eqb res objs && N.eqb (N.of_nat (length res)) (N.of_nat (length req)) && all_at desired res
-      | Failed _ =>
+      | RFailure _ =>
         (* allowed only if the conversion is not complete: wrong count, not at the desired
            version, or ... the chain is exhausted without reaching it *)
         negb (all_at desired objs && N.eqb (N.of_nat (length objs)) (N.of_nat (length req)))
       end
-    | OResp (Some m) _ =>                                (* the failing hook's own message *)
-      match ans with Failed m' => fmsg_eqb m' (MHook m) | Success _ => false end
-    | _ => match ans with Failed _ => true | Success _ => false end
+    | OResp m _ =>                                       (* the failing hook's own message, byte for byte *)
+      match ans with RFailure message => bytes_eqb message m | RSuccess _ => false end
+    | _ => match ans with RFailure _ => true | RSuccess _ => false end
     end
   end.
 
@@ -162,13 +159,13 @@ Definition runs_to_end (desired : version) (chain : list rule) (outs : list outc
   match trace with
   | [] => true
   | _ => match last_out outs trace with
-         | OResp None objs => all_at desired objs || Nat.eqb (length trace) (length chain)
+         | OResp [] objs => all_at desired objs || Nat.eqb (length trace) (length chain)
          | _ => true
          end
   end.
 
 Definition P_handler (desired : version) (chain : list rule) (outs : list outcome) (req : list obj)
-           (trace : list invocation) (ans : answer) : bool :=
+           (trace : list invocation) (ans : review) : bool :=
   in_order chain trace
   && feeds req outs trace
   && runs_to_end desired chain outs trace
